@@ -80,6 +80,7 @@ func c08Outputs(r *run.CaseResult, dir, dirB string, exposureOK bool, sink func(
 
 func c08World(g *rng.R, fam int) (*world.World, string) {
 	cfg := world.DefaultCfg()
+	cfg.KindTwins, cfg.SharedNames = 0.2, 0.2
 	cfg.NamedEgressIP = 0
 	cfg.UnusedNsPolicy = 0
 	switch fam {
